@@ -328,7 +328,7 @@ class SymKit(KitBase):
 
     def setattr(self, obj, name, value):
         """Assign an attribute of a (lifted) repository object from the contract (construction of a symbolic state)."""
-        self.I.setattr(wrap(obj), name, wrap(value), None)
+        self.I.setattr(wrap(obj), name, self.I.lift(wrap(value)), None)
 
     def array_cells(self, nested):
         """An array given cell by cell as nested lists (concrete shape; cells: nan_cell() / reals / numbers)."""
